@@ -4003,9 +4003,7 @@ func (ce *callEngine) callNativeFunc(ctx context.Context, m *wasm.ModuleInstance
 
 			switch unsignedType(op.B1) {
 			case unsignedTypeI32:
-				if offset%4 != 0 {
-					panic(wasmruntime.ErrRuntimeUnalignedAtomic)
-				}
+				checkAtomicAccess(memoryInst, offset, 4)
 				if int(offset) > len(memoryInst.Buffer)-4 {
 					panic(wasmruntime.ErrRuntimeOutOfBoundsMemoryAccess)
 				}
@@ -4016,9 +4014,7 @@ func (ce *callEngine) callNativeFunc(ctx context.Context, m *wasm.ModuleInstance
 					return value
 				}))
 			case unsignedTypeI64:
-				if offset%8 != 0 {
-					panic(wasmruntime.ErrRuntimeUnalignedAtomic)
-				}
+				checkAtomicAccess(memoryInst, offset, 8)
 				if int(offset) > len(memoryInst.Buffer)-8 {
 					panic(wasmruntime.ErrRuntimeOutOfBoundsMemoryAccess)
 				}
@@ -4033,9 +4029,7 @@ func (ce *callEngine) callNativeFunc(ctx context.Context, m *wasm.ModuleInstance
 		case operationKindAtomicMemoryNotify:
 			count := ce.popValue()
 			offset := ce.popMemoryOffset(op)
-			if offset%4 != 0 {
-				panic(wasmruntime.ErrRuntimeUnalignedAtomic)
-			}
+			checkAtomicAccess(memoryInst, offset, 4)
 			// Just a bounds check
 			if offset >= memoryInst.Size() {
 				panic(wasmruntime.ErrRuntimeOutOfBoundsMemoryAccess)
@@ -4056,9 +4050,7 @@ func (ce *callEngine) callNativeFunc(ctx context.Context, m *wasm.ModuleInstance
 			offset := ce.popMemoryOffset(op)
 			switch unsignedType(op.B1) {
 			case unsignedTypeI32:
-				if offset%4 != 0 {
-					panic(wasmruntime.ErrRuntimeUnalignedAtomic)
-				}
+				checkAtomicAccess(memoryInst, offset, 4)
 				memoryInst.Mux.Lock()
 				val, ok := memoryInst.ReadUint32Le(offset)
 				memoryInst.Mux.Unlock()
@@ -4067,9 +4059,7 @@ func (ce *callEngine) callNativeFunc(ctx context.Context, m *wasm.ModuleInstance
 				}
 				ce.pushValue(uint64(val))
 			case unsignedTypeI64:
-				if offset%8 != 0 {
-					panic(wasmruntime.ErrRuntimeUnalignedAtomic)
-				}
+				checkAtomicAccess(memoryInst, offset, 8)
 				memoryInst.Mux.Lock()
 				val, ok := memoryInst.ReadUint64Le(offset)
 				memoryInst.Mux.Unlock()
@@ -4091,9 +4081,7 @@ func (ce *callEngine) callNativeFunc(ctx context.Context, m *wasm.ModuleInstance
 			frame.pc++
 		case operationKindAtomicLoad16:
 			offset := ce.popMemoryOffset(op)
-			if offset%2 != 0 {
-				panic(wasmruntime.ErrRuntimeUnalignedAtomic)
-			}
+			checkAtomicAccess(memoryInst, offset, 2)
 			memoryInst.Mux.Lock()
 			val, ok := memoryInst.ReadUint16Le(offset)
 			memoryInst.Mux.Unlock()
@@ -4107,9 +4095,7 @@ func (ce *callEngine) callNativeFunc(ctx context.Context, m *wasm.ModuleInstance
 			offset := ce.popMemoryOffset(op)
 			switch unsignedType(op.B1) {
 			case unsignedTypeI32:
-				if offset%4 != 0 {
-					panic(wasmruntime.ErrRuntimeUnalignedAtomic)
-				}
+				checkAtomicAccess(memoryInst, offset, 4)
 				memoryInst.Mux.Lock()
 				ok := memoryInst.WriteUint32Le(offset, uint32(val))
 				memoryInst.Mux.Unlock()
@@ -4117,9 +4103,7 @@ func (ce *callEngine) callNativeFunc(ctx context.Context, m *wasm.ModuleInstance
 					panic(wasmruntime.ErrRuntimeOutOfBoundsMemoryAccess)
 				}
 			case unsignedTypeI64:
-				if offset%8 != 0 {
-					panic(wasmruntime.ErrRuntimeUnalignedAtomic)
-				}
+				checkAtomicAccess(memoryInst, offset, 8)
 				memoryInst.Mux.Lock()
 				ok := memoryInst.WriteUint64Le(offset, val)
 				memoryInst.Mux.Unlock()
@@ -4141,9 +4125,7 @@ func (ce *callEngine) callNativeFunc(ctx context.Context, m *wasm.ModuleInstance
 		case operationKindAtomicStore16:
 			val := uint16(ce.popValue())
 			offset := ce.popMemoryOffset(op)
-			if offset%2 != 0 {
-				panic(wasmruntime.ErrRuntimeUnalignedAtomic)
-			}
+			checkAtomicAccess(memoryInst, offset, 2)
 			memoryInst.Mux.Lock()
 			ok := memoryInst.WriteUint16Le(offset, val)
 			memoryInst.Mux.Unlock()
@@ -4156,9 +4138,7 @@ func (ce *callEngine) callNativeFunc(ctx context.Context, m *wasm.ModuleInstance
 			offset := ce.popMemoryOffset(op)
 			switch unsignedType(op.B1) {
 			case unsignedTypeI32:
-				if offset%4 != 0 {
-					panic(wasmruntime.ErrRuntimeUnalignedAtomic)
-				}
+				checkAtomicAccess(memoryInst, offset, 4)
 				memoryInst.Mux.Lock()
 				old, ok := memoryInst.ReadUint32Le(offset)
 				if !ok {
@@ -4184,9 +4164,7 @@ func (ce *callEngine) callNativeFunc(ctx context.Context, m *wasm.ModuleInstance
 				memoryInst.Mux.Unlock()
 				ce.pushValue(uint64(old))
 			case unsignedTypeI64:
-				if offset%8 != 0 {
-					panic(wasmruntime.ErrRuntimeUnalignedAtomic)
-				}
+				checkAtomicAccess(memoryInst, offset, 8)
 				memoryInst.Mux.Lock()
 				old, ok := memoryInst.ReadUint64Le(offset)
 				if !ok {
@@ -4245,9 +4223,7 @@ func (ce *callEngine) callNativeFunc(ctx context.Context, m *wasm.ModuleInstance
 		case operationKindAtomicRMW16:
 			val := ce.popValue()
 			offset := ce.popMemoryOffset(op)
-			if offset%2 != 0 {
-				panic(wasmruntime.ErrRuntimeUnalignedAtomic)
-			}
+			checkAtomicAccess(memoryInst, offset, 2)
 			memoryInst.Mux.Lock()
 			old, ok := memoryInst.ReadUint16Le(offset)
 			if !ok {
@@ -4280,9 +4256,7 @@ func (ce *callEngine) callNativeFunc(ctx context.Context, m *wasm.ModuleInstance
 			offset := ce.popMemoryOffset(op)
 			switch unsignedType(op.B1) {
 			case unsignedTypeI32:
-				if offset%4 != 0 {
-					panic(wasmruntime.ErrRuntimeUnalignedAtomic)
-				}
+				checkAtomicAccess(memoryInst, offset, 4)
 				memoryInst.Mux.Lock()
 				old, ok := memoryInst.ReadUint32Le(offset)
 				if !ok {
@@ -4295,9 +4269,7 @@ func (ce *callEngine) callNativeFunc(ctx context.Context, m *wasm.ModuleInstance
 				memoryInst.Mux.Unlock()
 				ce.pushValue(uint64(old))
 			case unsignedTypeI64:
-				if offset%8 != 0 {
-					panic(wasmruntime.ErrRuntimeUnalignedAtomic)
-				}
+				checkAtomicAccess(memoryInst, offset, 8)
 				memoryInst.Mux.Lock()
 				old, ok := memoryInst.ReadUint64Le(offset)
 				if !ok {
@@ -4331,9 +4303,7 @@ func (ce *callEngine) callNativeFunc(ctx context.Context, m *wasm.ModuleInstance
 			rep := uint16(ce.popValue())
 			exp := uint16(ce.popValue())
 			offset := ce.popMemoryOffset(op)
-			if offset%2 != 0 {
-				panic(wasmruntime.ErrRuntimeUnalignedAtomic)
-			}
+			checkAtomicAccess(memoryInst, offset, 2)
 			memoryInst.Mux.Lock()
 			old, ok := memoryInst.ReadUint16Le(offset)
 			if !ok {
@@ -4622,6 +4592,20 @@ func (ce *callEngine) callNativeFuncWithListener(ctx context.Context, m *wasm.Mo
 
 // popMemoryOffset takes a memory offset off the stack for use in load and store instructions.
 // As the top of stack value is 64-bit, this ensures it is in range before returning it.
+// checkAtomicAccess panics when an atomic access of size bytes at offset is out of bounds or, otherwise, when it is
+// not naturally aligned: the same order as the bounds and alignment checks emitted by the compiler.
+func checkAtomicAccess(mem *wasm.MemoryInstance, offset, size uint32) {
+	mem.Mux.Lock()
+	memLen := uint64(len(mem.Buffer))
+	mem.Mux.Unlock()
+	if uint64(offset)+uint64(size) > memLen {
+		panic(wasmruntime.ErrRuntimeOutOfBoundsMemoryAccess)
+	}
+	if offset%size != 0 {
+		panic(wasmruntime.ErrRuntimeUnalignedAtomic)
+	}
+}
+
 func (ce *callEngine) popMemoryOffset(op *unionOperation) uint32 {
 	offset := op.U2 + ce.popValue()
 	if offset > math.MaxUint32 {
